@@ -124,6 +124,7 @@ CONF_UPDATE_HOOK(iauth_class_conf_changed)
     struct conf_node_object *obj;
     struct conf_node_string *str;
     struct set_node *it;
+    struct set_node *jt;
     unsigned int n_rules;
     unsigned int o_idx = 0;
     int res;
@@ -138,6 +139,17 @@ CONF_UPDATE_HOOK(iauth_class_conf_changed)
         if (base->type != CONF_OBJECT)
             continue;
         obj = set_node_data(it);
+
+        /* Hear about in-place edits: criteria added to, dropped from
+         * or changed inside this rule do not change our section's
+         * membership, so the section hook alone would miss them.
+         */
+        obj->base.hook = iauth_class_conf_changed;
+        for (jt = set_first(&obj->contents); jt != NULL; jt = set_next(jt)) {
+            base = set_node_data(jt);
+            if (!base->hook)
+                base->hook = iauth_class_conf_changed;
+        }
 
         /* Load the new rule. */
         rule = &new_rules.vec[new_rules.used];
